@@ -112,6 +112,20 @@ def check_struct(res, N, bl, strand, frames, gname, seq_checks=True):
     res.trans()
     if exp and (o2[0] != "ok" or o2[1] != len(exp)):
         res.deviation("num_codons", dict(op="num_codons", **case), o2[1], len(exp), sig="num_codons")
+    # the same CDS described by GFF3 phases instead of frames (CDSPhase.to_frame) must read the same codons
+    from inscripta.biocantor.gene.cds_frame import CDSPhase
+
+    ph = lib.outcome(lambda: CDSInterval([b[0] for b in bl], [b[1] for b in bl], lib.STRAND[strand], [CDSFrame(f).to_phase() for f in frames],
+                                         parent_or_seq_chunk_parent=lib.chrom_parent(genome)))
+    res.trans()
+    if ph[0] != "ok":
+        res.deviation("CDSInterval(phases)", dict(op="phases-ctor", **case), ph[1], "object", sig="phases-ctor-raises")
+    else:
+        o = lib.outcome(lambda: ph[1].chromosome_codon_locations)
+        cmp_codons(res, "phases.chromosome_codon_locations", dict(op="phases-codons", **case), o, exp, strand)
+        o = lib.outcome(lambda: [f.value for f in ph[1].frames])
+        if o[0] != "ok" or o[1] != list(frames):
+            res.deviation("CDSInterval(phases).frames", dict(op="phases-frames", **case), o[1], list(frames), sig="phases-frames")
     if not seq_checks:
         return
     # a fresh object for the sequence paths (history dependence is C10's business): fast path first
